@@ -302,6 +302,9 @@ impl Prop for C12 {
       _ => panic!("unknown task {}", t),
     }
   }
+  fn cold_subs(&self) -> Vec<(&'static str, i64, i64, fn(i64) -> Vec<i64>)> {
+    vec![("rt", 0, crate::model::NDAYS as i64, |x| vec![x * 86400 + (x * 7919).rem_euclid(86400)])]
+  }
   fn eval(&self, env: &Env, out: &mut Out, sub: &str, case: &Case) {
     match sub {
       "step" => self.eval_step(env, out, case),
